@@ -442,14 +442,14 @@ func restEncodeTimeout(timeout time.Duration) string {
 }
 
 func restHTTPBodyRequest(op *operation) bool {
-	return restIsHTTPBody(op.methodConf.descriptor.Input(), op.restTarget.requestBodyFields)
+	return restIsHTTPBody(op.methodConf.inputDescriptor(), op.restTarget.requestBodyFields)
 }
 
 func restHTTPBodyResponse(op *operation) bool {
 	if op.restTarget == nil {
 		return false
 	}
-	return restIsHTTPBody(op.methodConf.descriptor.Output(), op.restTarget.responseBodyFields)
+	return restIsHTTPBody(op.methodConf.outputDescriptor(), op.restTarget.responseBodyFields)
 }
 
 func restIsHTTPBody(msg protoreflect.MessageDescriptor, bodyPath []protoreflect.FieldDescriptor) bool {
